@@ -1,22 +1,23 @@
 #!/bin/bash
-# confirm_seed.sh <seed-out-dir> <crate> <demo-filter> [extra cargo test args]
-# In a scratch git worktree of /repo: demo passes without the change, fails with it, and the
-# crate's existing tests still pass with it. Writes <seed-out-dir>/confirm.log and prints a verdict.
-d="$1"; crate="$2"; filter="$3"; shift 3
+# confirm_seed.sh <seed-out-dir> <crate> "<demo cargo-test args>" "<suite cargo-test args>"
+# In a scratch git worktree of /repo: (1) the crate's existing tests pass with the change,
+# (2) the demo fails with the change, (3) the demo passes without it. Writes <dir>/confirm.log.
+d="$1"; crate="$2"; demo_args="$3"; suite_args="$4"
 wt=/tmp/seed/confirm-wt-$$
 export CARGO_TARGET_DIR=/tmp/seed/confirm-target CARGO_NET_OFFLINE=true
 unset RUSTFLAGS
 git -C /repo worktree add --detach -q $wt HEAD || exit 2
 log="$d/confirm.log"; : > "$log"
 cd $wt
-( git apply "$d/demo.diff" ) >> "$log" 2>&1 || { echo "demo.diff does not apply" | tee -a "$log"; }
+git apply "$d/patch.diff" >> "$log" 2>&1 || { echo "VERDICT $d: patch.diff does not apply" | tee -a "$log"; cd /; git -C /repo worktree remove --force $wt; exit 1; }
+echo "== existing tests WITH change: cargo test -p $crate $suite_args" >> "$log"
+cargo test --offline --no-fail-fast -p "$crate" $suite_args >> "$log" 2>&1; r_suite=$?
+fails=$(grep -E "^test .* FAILED" "$log" | sort -u | tr '\n' ';')
+git apply "$d/demo.diff" >> "$log" 2>&1 || echo "demo.diff does not apply" | tee -a "$log"
+echo "== demo WITH change: cargo test -p $crate $demo_args" >> "$log"
+cargo test --offline -p "$crate" $demo_args >> "$log" 2>&1; r_with=$?
+git apply -R "$d/patch.diff" >> "$log" 2>&1
 echo "== demo WITHOUT change" >> "$log"
-cargo test --offline -p "$crate" "$@" -- "$filter" >> "$log" 2>&1; r_without=$?
-git apply "$d/patch.diff" >> "$log" 2>&1 || { echo "VERDICT $d: patch.diff does not apply"; git -C /repo worktree remove --force $wt; exit 1; }
-echo "== demo WITH change" >> "$log"
-cargo test --offline -p "$crate" "$@" -- "$filter" >> "$log" 2>&1; r_with=$?
-echo "== existing tests WITH change (demo excluded)" >> "$log"
-cargo test --offline -p "$crate" -- --skip "$filter" >> "$log" 2>&1; r_suite=$?
-echo "VERDICT $d: demo_without=$r_without (want 0) demo_with=$r_with (want !=0) suite_with=$r_suite (want 0)" | tee -a "$log"
-grep -E "^test .* FAILED|failed" "$log" | sort -u | head -8
+cargo test --offline -p "$crate" $demo_args >> "$log" 2>&1; r_without=$?
+echo "VERDICT $d: suite_with=$r_suite (want 0; failing: $fails) demo_with=$r_with (want !=0) demo_without=$r_without (want 0)" | tee -a "$log"
 cd /; git -C /repo worktree remove --force $wt
